@@ -177,7 +177,13 @@ def discharge(vcs, budgets=(8, 30, 60), workers=14) -> list[Obligation]:
         if z3.is_true(g):
             trivial[i] = ('unsat', '', 'simplify', 0.0, {})
             continue
-        jobs.append((i, vc_to_smt2(vc.hyps, vc.goal), budgets))
+        smt2 = vc_to_smt2(vc.hyps, vc.goal)
+        if os.environ.get('OCV_DUMP'):
+            import re as _re
+            os.makedirs(os.environ['OCV_DUMP'], exist_ok=True)
+            with open(os.path.join(os.environ['OCV_DUMP'], _re.sub(r'[^A-Za-z0-9_.#-]+', '_', vc.id)[-150:] + '.smt2'), 'w') as f:
+                f.write(smt2 + '\n(check-sat)\n')
+        jobs.append((i, smt2, budgets))
     results = dict(trivial)
     if jobs:
         with ProcessPoolExecutor(max_workers=workers) as ex:
